@@ -34,7 +34,8 @@ func errForm() form { return form{"k": "err"} }
 
 func bigForm(i *big.Int) form {
 	if i.Sign() < 0 {
-		return form{"k": "neg"}
+		// not encodable (rlp refuses negative integers): only occurs in values offered to make an encode fail
+		return form{"k": "neg", "b": codecutil.Ints(append([]byte{0}, i.Bytes()...))}
 	}
 	return form{"k": "u", "b": codecutil.Ints(append([]byte{0}, i.Bytes()...))}
 }
@@ -141,10 +142,18 @@ func build(t reflect.Type, f form) reflect.Value {
 		if k == "z" {
 			return v
 		}
-		v.Set(reflect.ValueOf(new(big.Int).SetBytes(formBytes(f))))
+		i := new(big.Int).SetBytes(formBytes(f))
+		if k == "neg" {
+			i.Neg(i)
+		}
+		v.Set(reflect.ValueOf(i))
 		return v
 	case t == bigType:
-		v.Set(reflect.ValueOf(*new(big.Int).SetBytes(formBytes(f))))
+		i := new(big.Int).SetBytes(formBytes(f))
+		if k == "neg" {
+			i.Neg(i)
+		}
+		v.Set(reflect.ValueOf(*i))
 		return v
 	}
 	switch t.Kind() {
